@@ -118,7 +118,8 @@ def check_flatten_axis(inp, out, dims_listed, insert):
 class C11(Prop):
     id = "C11"
     theorems = ["ravel_lt", "unravel_ravel", "ravel_unravel", "unravel_inRange", "ravel_append", "group_get",
-                "reshape_roundtrip_get", "ungroup_group_get", "tupleLabels_get", "tupleLabels_length", "multiAxis_name_size"]
+                "reshape_roundtrip_get", "ungroup_group_get", "tupleLabels_get", "tupleLabels_length", "multiAxis_name_size", "flatten_spec", "flatten_member_coords", "flatten_grouped_labels", "flatten_index_cover", "unflatten_flatten", "unflattenAll_flatten",
+                "reshape_transpose", "reshape_group", "reshape_group_eq_flatten", "reshape_flatten_ungroup", "reshape_add_singleton", "reshape_drop_singleton"]
     rule = ("arrays of rank 1-4 with axes of different kinds and lengths; flatten of every non-empty subset of "
             "dimensions in every order (tuple / list / set / varargs), default and every insert position; flatten "
             "followed by unflatten; reshape to target dimension lists that regroup (comma names), reorder, add or "
